@@ -165,6 +165,7 @@ package gozxing
 
 //@ func (b *BitArray) AppendBits(value int, numBits int) (e error)
 //@   property C16
+//@   opt tier=thorough
 //@   mode bv
 //@   requires wfBA(b) && padBA(b) && b.size < 1<<30
 //@   let bad = numBits < 0 || numBits > 32
@@ -208,6 +209,7 @@ package gozxing
 
 //@ func (b *BitArray) ToBytes(bitOffset int, array []byte, offset int, numBytes int)
 //@   property C16
+//@   opt tier=thorough
 //@   mode bv
 //@   requires wfBA(b) && 0 <= bitOffset && bitOffset <= b.size && 0 <= offset && offset <= len(array) && 0 <= numBytes && numBytes <= 1<<26 && bitOffset + 8*numBytes <= b.size && offset + numBytes <= len(array)
 //@   ensures forall i int, j int :: 0 <= i && i < numBytes && 0 <= j && j < 8 ==> ((array[offset+i] >> uint(7-j)) & 1 == 1) == bit(b, bitOffset + 8*i + j)
@@ -236,6 +238,7 @@ package gozxing
 
 //@ func (b *BitArray) Reverse()
 //@   property C16
+//@   opt tier=thorough
 //@   mode bv
 //@   requires wfBA(b)
 //@   ensures wfBA(b) && b.size == old(b.size) && (b.size > 0 ==> padBA(b))
